@@ -52,6 +52,9 @@ type (
 		Line            int
 		Col             int
 		TrimWhitespaces bool
+
+		// the body of a verbatim block: literal whatever stands next to it
+		verbatim bool
 	}
 )
 
@@ -240,6 +243,7 @@ func (l *lexer) run() {
 			if strings.HasPrefix(l.input[l.pos:], fmt.Sprintf("{%% endverbatim %s%%}", name)) { // end verbatim
 				if l.pos > l.start {
 					l.emit(TokenHTML)
+					l.tokens[len(l.tokens)-1].verbatim = true
 				}
 				w := len("{% endverbatim %}")
 				l.pos += w
